@@ -110,6 +110,7 @@ type FnCtx struct {
 	usedInlined map[string]bool
 	hasUnknownCall bool
 	lastEvalErr string
+	madeTypes map[string]types.Type
 	ghostSorts map[string]*Sort
 	inInit bool
 }
